@@ -10,9 +10,12 @@ from hv import Case
 from kern2 import Snap, area2, cross3, fr_tok
 
 SPEC = {
-    "lean_modules": ["Honeycomb.Props.C13"],
+    "lean_modules": ["Honeycomb.Props.C13", "Honeycomb.Props.C13b"],
     "required_theorems": ["C13_check_requirements_ok_iff", "C13_shoelace_step", "C13_earclip_area_sum",
-                          "C13_fan_area_sum", "C13_fan_star_sees_every_side", "C13_fan_apex_sees_all"],
+                          "C13_fan_area_sum", "C13_fan_star_sees_every_side", "C13_fan_apex_sees_all",
+                          "C13_earclip_preserves_WF", "C13_fan_preserves_WF", "C13_fan_convex_preserves_WF",
+                          "C13_fan_preserves_WF_closed_face", "C13_fan_structure", "C13_fan_convex_structure",
+                          "C13_fan_cell_structure"],
     "trusted_base": [
         "Lean 4.33 kernel; axioms propext, Classical.choice, Quot.sound only",
         "hand-written model Honeycomb/Model/Kernels/{Geom2,Fan,EarClip}.lean (+ Stm, Map, Ops, Ops2) tied to /repo by the "
@@ -24,7 +27,9 @@ SPEC = {
     ],
     "assumptions": [
         "the theorems on areas/orientation are about the vertex-list computations (ear search, list surgery, star search) shared by "
-        "the model kernels; that the map surgery realises exactly those triangles is validated by the oracle, not proved",
+        "the model kernels; the map surgery is treated in Props/C13b.lean (WF, exact face structure of the fans); that the faces it "
+        "builds carry the coordinates of those vertex-list triangles is validated by the oracle, not proved",
+        "fan WF/structure theorems: the face is a closed beta1-cycle (necessary: on an open chain the final 1-sew can write beta1(0))",
         "spare darts are distinct free in-use darts",
     ],
     "rule": "polygons with 3..10 sides on the 1/4 lattice: strictly convex, star-shaped from one vertex (star vertex at every index), convex "
@@ -38,8 +43,12 @@ SPEC = {
             "orientation, fan must accept strictly convex ones. distinct_nontrivial = distinct implementation transcripts.",
     "not_proved": [
         "ear clipping succeeds on every simple polygon in general position (needs the two-ears theorem; sampled only)",
-        "WF preservation through the sew loops and the exact face structure (n-2 triangles with the intended corner darts) of the map "
-        "surgery: validated by the oracle on every case, not a theorem",
+        "exact face structure after EAR CLIPPING (every cut ear is a triangle of the intended darts; needs the invariant that the "
+        "kernel's dart vector is the current face in cyclic order through remove/push/swap_remove): oracle only. Proved instead: WF "
+        "preservation for ear clipping and both fans (Props/C13b.lean), and for the fans the exact face structure (n-2 triangles as "
+        "closed beta1 3-cycles, beta2 of the sides unchanged, other faces untouched: FanResult)",
+        "that the triangles of the map surgery carry the coordinates of the vertex-list triangles (fanTriangles / earclipTriangles): "
+        "oracle only",
         "the last remaining triangle of ear clipping has the announced orientation (the code does not test it; follows from simplicity)",
         "the first side examined by the fan's star search is only sign-tested by the code (no epsilon test): the strict-orientation "
         "theorem C13_fan_apex_sees_all carries the non-degeneracy of that one triangle as a hypothesis",
